@@ -112,13 +112,19 @@ def compare(c, mline, iline):
     irecs, iflags = parse_out(iline)
     if iflags or mflags:
         return "observable", "flags model=%s impl=%s" % (mflags, iflags)
+    # an observable difference in ANY call decides (a stale carried state shows first as a
+    # white-box difference and only in a later call as a wrong boundary: seed C09-e)
+    wb = None
     for k, (m, i) in enumerate(zip(mrecs, irecs)):
         if m[:2] != i[:2]:
-            return "observable", "run call #%d: spec (offset,match)=%s impl=%s" % (k, m[:2], i[:2])
-        if m[2:] != i[2:]:
-            return "whitebox", "run call #%d: state after call model (hash,history)=%s impl=%s" % (k, m[2:], i[2:])
+            return "observable", "run call #%d: spec (offset,match)=%s impl=%s%s" % (
+                k, m[:2], i[:2], "" if wb is None else " (carried state already differed: %s)" % wb[:120])
+        if m[2:] != i[2:] and wb is None:
+            wb = "run call #%d: state after call model (hash,history)=%s impl=%s" % (k, m[2:], i[2:])
     if len(mrecs) != len(irecs):
         return "observable", "number of run calls differs %d vs %d" % (len(mrecs), len(irecs))
+    if wb is not None:
+        return "whitebox", wb
     return None, ""
 
 
